@@ -109,6 +109,14 @@ Print Assumptions places_complete.
 Print Assumptions indices_in_range.
 Print Assumptions display_nonempty.
 
+(* Total of the stack set = the sum of the magnitudes of the selected value over ALL samples -- a
+   sample with an empty stack included -- (over the difference-base samples when they carry weight;
+   divided by the summed mean divisor when one is selected), wherever int64 cannot overflow *)
+Theorem total_is_sum_of_magnitudes : forall shorten clean o p t,
+  total_spec o p = Some t -> ss_total (stacks_of shorten clean o p) = t.
+Proof. exact stacks_total_lemma. Qed.
+Print Assumptions total_is_sum_of_magnitudes.
+
 (* Stacks() is an observation: any sequence of calls, on any reports sharing the profile (options
    [os], one per call), returns for EVERY call the stack set of the original profile -- to which all
    theorems above apply -- and leaves the profile as it was.  (The implementation side of this is
